@@ -31,6 +31,20 @@ Tie to /repo, every run:
      may be a directory of that name. `c13.locate` (Lean `searchOrder`, `locate`; theorems `locate_first_file`,
      `nextToIdl_before_includeDirs`, `includeDirs_in_order`, `extern_loads_export`) on the workspace as written vs the files the real
      parser read (`parsed.external_types`); the all-local reference is built in the same place (same root spelling and cwd).
+  K5 the alphabet of the exported strings: round trips under naming configurations (`ALPHABETS`) that carry underscores, digits and both letter
+     cases into every exported attribute — configured namespaces / packages / prefixes with `_` and digits, the styles `none` and `snake_case`
+     for types, classes, namespaces and packages, file names with `-` (`kebab-case`), `.` and digits, include prefixes with `-`, `.`, `..` —
+     over type names and namespaces of the same alphabet (`LEXICAL`, `LEX_NAMESPACES`: `geo_point`, `t1_2`, `UPPER_CASE`, `trailing_`,
+     `namespace geo_data`, `v2.api_1.dto` …); `stats.exported_alphabet` lists, per attribute, the characters seen. The value constraints of
+     the external-type models (`Field(pattern=…)`) are part of the model (`Pat`, `cppNameOk`; theorem `cppNameOk_joined`): obligation
+     `patterns_modelled` (every live pattern is one the model implements) and `c13.pattern` vs pydantic's matcher on `PATTERN_SAMPLES`.
+  K6 re-export histories (`gen_sequence`, `sequence_job`): 2-3 rounds of export -> @extern -> generate (+ loader alone, + all-local build) in ONE
+     worker process on ONE directory tree — the export goes to the same paths every round; from round to round the naming configuration, the
+     kinds behind the names, the set of declarations or their namespaces change (or nothing does); export mode x spelling of the literals
+     (absolute / relative) x one `API` object for all steps / one per step rotate. Every round is judged like any round trip (against the
+     all-local build of *that* round); a failure of a later round is re-run as a history of that round alone in a fresh process: what it also
+     shows alone keeps its key, the rest is `history:stale-export:<what changed>`. Lean `Disk`, `Round`, `runRounds` (`c13.rounds`, compared
+     with the registry of the real loader round by round); theorems `round_history_free`, `runRounds_history_free`, `reexport_registered`.
   S  specification on the implementation's observations: every `@extern` directive loaded the export, not a decoy
      (`extern:wrong-file:<form>`); every exported declaration is registered under its qualified name
      by the real loader (`key:<Kind>`), `c13.spec` compares every applicable read through the really loaded type with the read
@@ -71,6 +85,13 @@ THEOREMS = [
     "Pydjinni.C13.includeDirs_in_order",
     "Pydjinni.C13.extern_loads_export",
     "Pydjinni.C13.extern_export_registered",
+    "Pydjinni.C13.cppNameOk_joined",
+    "Pydjinni.C13.any_accepts",
+    "Pydjinni.C13.read_after_write",
+    "Pydjinni.C13.loadPaths_congr",
+    "Pydjinni.C13.round_history_free",
+    "Pydjinni.C13.runRounds_history_free",
+    "Pydjinni.C13.reexport_registered",
 ]
 LEVEL = "proof"
 TRUSTED = (
@@ -246,9 +267,52 @@ def ext_fields(gens):
             continue
         fs = []
         for name, f in m.model_fields.items():
-            fs.append({"n": name, "req": bool(f.is_required()), "def": None if f.is_required() else jval(f.default)})
+            e = {"n": name, "req": bool(f.is_required()), "def": None if f.is_required() else jval(f.default)}
+            # value constraint of the field (`Field(pattern=…)`): the expression as written, and the model's name for it
+            text = next((x.pattern for x in f.metadata if isinstance(getattr(x, "pattern", None), str)), None)
+            if text is not None:
+                e["pattern"] = text
+                e["pat"] = MODELLED_PATTERNS.get((g.key, name, text), "any")
+            fs.append(e)
         out.append([g.key, fs])
     return out
+
+
+# Python twin of Lean `modelledPatterns` (the expressions of the pinned tree that `Pat` implements)
+MODELLED_PATTERNS = {("jni", "translator", r"^(::)?([a-zA-Z][a-zA-Z0-9_]*(::))*[a-zA-Z][a-zA-Z0-9_]*$"): "cppName"}
+# strings around the alphabet of qualified C++ names, for the correspondence of the pattern automaton with the live expression
+PATTERN_SAMPLES = ["a", "A9", "a_b", "a__b_", "::a", "::a::b_2::C_", "geo_lib::jni_2::geo_data::j_geo_point", "Z9::z_9", "", "::", "a::", "::a::", "a:b", "a:::b", ":a",
+                   ":::a", "::::a", "_a", "9a", "a::9", "a::_b", "a$b", "a-b", "a.b", "a b", "a::b c", "é", "a::é", "a/b", "La/b_c;", "a::b::", "a:", "a::b:"]
+
+
+def pattern_correspondence(ctx, spec):
+    """the model of every modelled field pattern vs the live field constraint (pydantic's own matcher), on `PATTERN_SAMPLES`"""
+    from typing import Annotated
+    from pydantic import Field, TypeAdapter, ValidationError
+    breaks = []
+    for g, fs in spec:
+        for f in fs:
+            if "pattern" not in f:
+                continue
+            live = TypeAdapter(Annotated[str, Field(pattern=f["pattern"])])
+
+            def ok(v):
+                try:
+                    live.validate_python(v)
+                    return True
+                except ValidationError:
+                    return False
+            theirs = [ok(v) for v in PATTERN_SAMPLES]
+            mine = ctx.driver.batch([{"op": "c13.pattern", "pat": f["pat"], "values": PATTERN_SAMPLES}])[0]
+            if "error" in mine:
+                raise common.Infra(f"driver error {mine}")
+            ctx.count(n=len(PATTERN_SAMPLES))
+            ctx.stat("pattern_samples_accepted", sum(theirs))
+            ctx.stat("pattern_samples_refused", len(theirs) - sum(theirs))
+            bad = [[v, m, t] for v, m, t in zip(PATTERN_SAMPLES, mine["accepts"], theirs) if m != t]
+            if bad:
+                breaks.append({"what": f"c13.pattern ({f['pat']}) vs the live constraint of {g}.{f['n']}", "pattern": f["pattern"], "differing [value, model, impl]": bad[:8]})
+    return breaks
 
 
 def computed_by_kind(gens):
@@ -299,7 +363,13 @@ def obligations(ctx, gens):
     src += ["]", "", "/-- computed fields of the marshalling class of every declaration kind: (AST class, generator, names) -/",
             "def computed : List (String × String × List String) := ["]
     src.append(",\n".join(f"  ({lean_lit(k)}, {lean_lit(g)}, [" + ", ".join(lean_lit(n) for n in names) + "])" for k, g, names in computed))
+    pats = [(g, f["n"], f["pattern"]) for g, fs in spec for f in fs if "pattern" in f]
+    src += ["]", "", "/-- the `pattern=` constraints of the fields of the external-type models: (generator, field, expression) -/",
+            "def extPatterns : List (String × String × String) := ["]
+    src.append(",\n".join(f"  ({lean_lit(g)}, {lean_lit(n)}, {lean_lit(t)})" for g, n, t in pats))
     src += ["]", "",
+            "/-- every value constraint of a live external-type model is one the model implements (`modelledPatterns`, `Pat`) -/",
+            "theorem patterns_modelled : patternsModelled extPatterns = true := by decide", "",
             "/-- every read through a type definition can be answered by a loaded external type (up to the Dom clauses `knownMissing`) -/",
             "theorem used_loadable : used.all (usedOk extFields) = true := by decide",
             "/-- every loadable attribute that is read is exported for every declaration kind -/",
@@ -310,7 +380,8 @@ def obligations(ctx, gens):
     ok, out = common.lean_check_file(text, "C13_tables")
     lines = text.split("\n")
     errs = [int(m) for m in re.findall(r"\.lean:(\d+):\d+: error", out)]
-    for name in ("used_loadable", "used_exported", "required_exported"):
+    ctx.stats["field_patterns"] = [f"{g}.{n}" for g, n, _ in pats]
+    for name in ("patterns_modelled", "used_loadable", "used_exported", "required_exported"):
         ln = next(i for i, l in enumerate(lines) if l.startswith("theorem " + name)) + 1
         ctx.obligation("C13_tables." + name, ok or (bool(errs) and ln not in errs), kind="generated", detail=out)
     if not ok and not errs:
@@ -378,6 +449,11 @@ KEYWORDISH = ["y", "n", "int", "default", "void", "id", "delete", "new", "struct
 NAMESPACES = ["ns", "on", "off", "yes", "no", "null", "Null", "y", "n", "id", "object", "name", "in", "out", "ref", "var", "is", "as",
               "on.off", "a.null", "yes.no.on"]
 NAMINGS = ["slots", "yaml-words", "keywordish", "mixed"]
+# the alphabet of an identifier is `Letter (Letter | Digit | _)*`: names and namespaces with underscores (single, doubled, trailing),
+# digits and mixed letter case — what survives into the exported strings depends on the identifier styles (`ALPHABETS` below)
+LEXICAL = ["geo_point", "point2d", "a_b_c", "x_1", "Mixed_Case", "camelCase", "UPPER_CASE", "t1_2", "Http2Server", "v_2_0", "snake_case_name", "e2e",
+           "trailing_", "double__score", "Z9"]
+LEX_NAMESPACES = ["geo_data", "net2", "a_b.c_d", "x1.y_2", "Geo_Data", "v2.api_1.dto", "ui__kit", "tail_"]
 YAML_LOWER = {w.lower() for w in YAML_WORDS}
 
 # how a dependant can wrap a reference to an exported type …
@@ -400,7 +476,7 @@ def site(slot: str, wrap: str, pos: str) -> str:
     return f"u_{slot}_{wrap}_{pos}"
 
 
-def dependant(r: random.Random, decls: list[dict], throws: str | None = None, rot: int = 0) -> str:
+def dependant(r: random.Random, decls: list[dict], throws: str | None = None, rot: int = 0, light: bool = False) -> str:
     """dependant declarations over the exported declarations `decls` ({slot, tag, ref}): every declaration in every
     wrapper, at every kind of position (record field with/without deriving, parameter / return / property of a C++ and of
     a Java/ObjC/C# implemented interface, static/const/async methods, named and inline function signatures)."""
@@ -425,7 +501,9 @@ def dependant(r: random.Random, decls: list[dict], throws: str | None = None, ro
     # signature and the inline signatures rotate with the case number `rot`
     if plain:
         out.append("dr = record {\n" + "".join(plain) + "}\n")
-        if (rot + rot // len(SAFE)) % 2 == 0 or not ordd:
+        if light:       # (the rounds of a re-export history: three declarations — a record, a C++ and a Java/ObjC/C# implemented interface)
+            pass
+        elif (rot + rot // len(SAFE)) % 2 == 0 or not ordd:
             out.append("dre = record {\n" + "".join(eq) + "} deriving(eq)\n")
         else:
             out.append("dro = record {\n" + "".join(ordd) + "} deriving(eq, ord)\n")
@@ -434,7 +512,7 @@ def dependant(r: random.Random, decls: list[dict], throws: str | None = None, ro
         cpp.insert(0, f"    mthrows(p: i32){thr} -> i32;\n")
         java.insert(0, f"    onthrows(){thr};\n")
     # inline signatures over one declaration: the wrappers of the three parameters and of the returned type rotate
-    for which, (members, pn) in enumerate(((cpp, "ip"), (java, "ir"))):
+    for which, (members, pn) in enumerate(() if light else ((cpp, "ip"), (java, "ir"))):
         d = decls[(rot + which) % len(decls)]
         wn, wt = WRAPS[(rot // len(decls) + 3 * which) % len(WRAPS)]
         # (the generated file names spell the whole signature out: three parameters keep them below the 255 bytes of a file name)
@@ -444,6 +522,8 @@ def dependant(r: random.Random, decls: list[dict], throws: str | None = None, ro
         members.append(f"    {site(d['slot'], wn, pn)}(f: {sig});\n" if pn == "ip" else f"    {site(d['slot'], wn, pn)}() -> {sig};\n")
     out.append("di = interface +cpp {\n" + "".join(cpp) + "}\n")
     out.append("dj = interface +java +objc +cppcli {\n" + "".join(java) + "}\n")
+    if light:
+        return "".join(out)
     ret = fn_sites[rot % len(fn_sites)][1]
     params = ", ".join(f"{s}: {w}" for s, w in fn_sites)
     out.append(f"dfn = function{' +cpp' if rot % 4 >= 2 else ''} ({params}) -> {ret};\n")
@@ -506,20 +586,50 @@ CONFIGS = [
 ]
 
 
-def draw_names(r: random.Random, slots: list[str], naming: str, allow_same_name: bool) -> dict:
+# Naming configurations that carry the whole legal alphabet into every exported string: configured namespaces / packages / prefixes with
+# underscores and digits, identifier styles that keep the IDL spelling (`none`) or its underscores (`snake_case`) for types, namespaces
+# and packages, file names with `-` (`kebab-case`), `.` and digits (prefix, extension), include prefixes with `-`, `.`, `..`.
+# (java.identifier.type and jni.identifier.class_name name the same Java class: they are configured alike.)
+ALPHABETS = [
+    ("alphabet-snake", {
+        "cpp": {"namespace": "geo_lib::v2_1", "include_prefix": "inc-2/v1.0", "header_extension": "v2.hpp",
+                "identifier": {"type": "snake_case", "file": {"style": "kebab-case", "prefix": "t2."}, "namespace": "none"}},
+        "java": {"package": "org.x_y.z2_", "identifier": {"type": {"style": "snake_case", "prefix": "j_"}, "package": "none"}},
+        "jni": {"namespace": "geo_lib::jni_2", "include_prefix": "jni-inc/1.0", "include_cpp_prefix": "inc-2/v1.0", "header_extension": "v2.hpp",
+                "identifier": {"file": {"style": "kebab-case", "prefix": "jni-2."}, "class_name": {"style": "snake_case", "prefix": "j_"}, "namespace": "snake_case"}},
+        "objc": {"type_prefix": "G2_", "header_extension": "v2.h", "identifier": {"type": "snake_case"}},
+        "objcpp": {"namespace": "geo_lib::objc_2", "header_extension": "v2.h"},
+        "cppcli": {"namespace": "Geo_Lib::V2_1", "include_cpp_prefix": "inc-2/v1.0",
+                   "identifier": {"type": "snake_case", "file": {"style": "kebab-case", "prefix": "cli-2."}, "namespace": "none"}}}),
+    ("alphabet-none", {
+        "cpp": {"namespace": "Geo_Lib::V_2", "include_prefix": "../inc.d/2", "header_extension": "h",
+                "identifier": {"type": "none", "file": "none", "namespace": "TRAIN_CASE"}},
+        "java": {"package": "a_.b_2.c3", "identifier": {"type": "none", "package": "snake_case"}},
+        "jni": {"namespace": "Geo_Lib::Jni_2", "header_extension": "h",
+                "identifier": {"file": {"style": "none", "prefix": "jni_"}, "class_name": "none", "namespace": "none"}},
+        "objc": {"type_prefix": "g_", "identifier": {"type": "none"}},
+        "objcpp": {"namespace": "Geo_Lib::Objc_2"},
+        "cppcli": {"namespace": "geo_lib::v_2", "identifier": {"type": "none", "file": "none", "namespace": "snake_case"}}}),
+    ("alphabet-default-styles", {
+        "cpp": {"namespace": "x_::y_1"}, "java": {"package": "com.acme_corp.maps_2"}, "jni": {"namespace": "x_::jni_1"},
+        "objc": {"type_prefix": "A_1"}, "objcpp": {"namespace": "x_::objc_1"}, "cppcli": {"namespace": "X_::Y_1"}}),
+]
+
+
+def draw_names(r: random.Random, slots: list[str], naming: str, allow_same_name: bool, namespaces=None, p_ns: float = 0.3) -> dict:
     """slot -> (name, namespace | None); names are distinct up to case unless two declarations live in different namespaces
     of one `out_file` (per-type files are named after the bare name: that collision is property C15's)"""
-    pools = {"slots": [], "yaml-words": YAML_WORDS, "keywordish": KEYWORDISH, "mixed": YAML_WORDS + KEYWORDISH}
+    pools = {"slots": [], "yaml-words": YAML_WORDS, "keywordish": KEYWORDISH, "mixed": YAML_WORDS + KEYWORDISH, "lexical": LEXICAL}
     pool = list(pools[naming])
     r.shuffle(pool)
     out, taken = {}, set()
     for s in slots:
         ns = None
-        if s == "xn" or r.random() < 0.3:
-            ns = r.choice(NAMESPACES)
+        if s == "xn" or r.random() < p_ns:
+            ns = r.choice(namespaces or NAMESPACES)
         name = s
         if pool and (naming != "mixed" or r.random() < 0.7):
-            cand = [n for n in pool if n.lower() not in taken]
+            cand = [n for n in pool if n.replace("_", "").lower() not in taken]
             if cand:
                 name = cand[0]
                 pool.remove(name)
@@ -527,7 +637,7 @@ def draw_names(r: random.Random, slots: list[str], naming: str, allow_same_name:
             other = r.choice(sorted(out))
             if out[other][1] != ns:
                 name = out[other][0]
-        taken.add(name.lower())
+        taken.add(name.replace("_", "").lower())
         out[s] = (name, ns)
     return out
 
@@ -622,6 +732,116 @@ def gen_case(r: random.Random, i: int) -> dict:
         c["layout"] = {"form": FORMS[(j + j // len(FORMS)) % len(FORMS)], "decoy": decoy_exporter(c), "decoy_config": dcfg, "decoy_config_name": dcfg_name,
                        "dir_decoy": (j // 2) % 2 == 1, "relative_include_dirs": (j // 3) % 2 == 1}
     return c
+
+
+def gen_alphabet_case(r: random.Random, i: int) -> dict:
+    """a closed round trip under a naming configuration of `ALPHABETS` with names / namespaces of the lexical family"""
+    k = r.choice([2, 3])
+    slots = [SAFE[i % len(SAFE)]] + r.sample([s for s in SAFE if s != SAFE[i % len(SAFE)]], k=k - 1)
+    slots.sort(key=SAFE.index)
+    cfg_name, cfg = ALPHABETS[i % len(ALPHABETS)]
+    mode = "out_file" if (i + i // len(ALPHABETS)) % 2 else "per_type"
+    names = draw_names(r, slots + ["xerr"], "lexical", allow_same_name=(mode == "out_file"), namespaces=LEX_NAMESPACES, p_ns=0.6)
+    exp = exporter_text(slots, names)
+    exp_slots = list(slots)
+    if r.random() < 0.3:
+        exp += exporter_text(["xerr"], names)
+        exp_slots.append("xerr")
+    return {"exp": exp, "dep": dependant(r, decl_refs(slots, names), rot=i), "config": cfg, "config_name": cfg_name, "mode": mode,
+            "shape": "closed", "naming": "lexical", "slots": slots, "exp_slots": exp_slots, "rot": i, "names": {k: list(v) for k, v in names.items()}}
+
+
+# ---------------------------------------------------------------------------------------------------------
+# re-export histories: one process, one directory tree, several rounds of export -> @extern -> generate on the SAME paths
+# ---------------------------------------------------------------------------------------------------------
+
+# what changes from one round to the next. Every round is a complete round trip of its own: the dependant built against the files the
+# round's export wrote has to equal the all-local build of *that* round, whatever the same paths held before.
+EDITS = ["config", "kinds", "declarations", "namespaces", "config+kinds", "same"]
+# (namespaces that no target language reserves under any identifier style of the configuration pool)
+SEQ_NAMESPACES = ["ns", "on", "off", "yes.no.on", "lib.core", "n", "on.off"]
+
+
+def gen_sequence(r: random.Random, i: int) -> dict:
+    """2-3 rounds over one library: round k+1 re-exports under another naming configuration (`config`), with every name declared as
+    another kind of type (`kinds`), with a declaration added and one dropped (`declarations`), with the declarations moved to other
+    namespaces (`namespaces`), or unchanged (`same`). Export mode, spelling of the @extern literals (absolute / relative to the
+    working directory) and one `API` object for all steps / a new one per step rotate with the sequence number."""
+    mode = "out_file" if (i + i // len(EDITS)) % 2 else "per_type"        # (every edit meets both export modes within 2 x len(EDITS) sequences)
+    pool = CONFIGS + ALPHABETS
+    lexical = (i // 3) % 2 == 1
+    slots = [SAFE[i % len(SAFE)], SAFE[(5 * i + 3) % len(SAFE)]]
+    slots = sorted(set(slots), key=SAFE.index)
+    # (names of the slot / lexical families are accepted as type names under every configuration of the pool)
+    names = draw_names(r, slots, "lexical" if lexical else "slots", allow_same_name=False, namespaces=LEX_NAMESPACES if lexical else SEQ_NAMESPACES, p_ns=0.5)
+    ci = i % len(pool)
+    hist = {"seq": i, "form": "absolute" if (i // 2) % 2 == 0 else "relative", "share_api": (i // 4) % 2 == 1}
+    rounds = []
+    for k in range(3 if i % 4 == 0 else 2):
+        edit = "first"
+        if k > 0:
+            edit = EDITS[(i + k - 1) % len(EDITS)]
+            if "config" in edit:
+                ci = (ci + 1 + r.randrange(len(pool) - 1)) % len(pool)
+            if "kinds" in edit:
+                new_slots, new_names = [], {}
+                for s_ in slots:
+                    j = SAFE.index(s_)
+                    o = next(o for o in SAFE[j + 1:] + SAFE[:j + 1] if EXPORTS[o][1] != EXPORTS[s_][1] and o not in new_slots)
+                    new_slots.append(o)
+                    new_names[o] = names[s_]
+                slots, names = sorted(new_slots, key=SAFE.index), new_names
+            if edit == "declarations":
+                added = next(o for o in SAFE[(i + k) % len(SAFE):] + SAFE if o not in slots)
+                if len(slots) > 1:
+                    names.pop(slots[0])
+                    slots = slots[1:]
+                names[added] = (f"added_{k}", r.choice([None, "ns", "geo_data"]))
+                slots = sorted(slots + [added], key=SAFE.index)
+            if edit == "namespaces":
+                nss = LEX_NAMESPACES if lexical else SEQ_NAMESPACES
+                names = {s_: (n, r.choice([x for x in nss + [None] if x != ns])) for s_, (n, ns) in names.items()}
+        cfg_name, cfg = pool[ci]
+        rounds.append({"exp": exporter_text(slots, names), "dep": dependant(r, decl_refs(slots, names), rot=i + k, light=True), "config": cfg, "config_name": cfg_name,
+                       "mode": mode, "shape": "history", "naming": "lexical" if lexical else "slots", "slots": list(slots), "exp_slots": list(slots), "rot": i + k,
+                       "names": {s_: list(v) for s_, v in names.items()},
+                       "yaml_names": ["all.yaml"] if mode == "out_file" else sorted({names[s_][0] + ".yaml" for s_ in slots}),
+                       "history": {**hist, "round": k, "edit": edit}})
+    for k, c in enumerate(rounds):
+        c["history"]["rounds"] = [{"exporter": x["exp"], "dependant": x["dep"], "config": x["config"], "yaml_names": x["yaml_names"], "edit": x["history"]["edit"]} for x in rounds[:k + 1]]
+    return {"rounds": rounds}
+
+
+def sequence_job(seq: dict, node_attrs) -> dict:
+    """the steps of a history (per round: export of the library, the dependant with @extern, the loader alone, the all-local build) as
+    one job of one worker process on one directory tree: lib/ -> out_lib/yaml, app/ -> out_app, loc/ -> out_loc"""
+    steps = []
+    for c in seq["rounds"]:
+        h, cfg = c["history"], c["config"]
+        yopt = {"yaml": {"out_file": "all.yaml"}} if c["mode"] == "out_file" else {}
+        share = {"share_api": True} if h["share_api"] else {}
+        prefix = "{JOB}/out_lib/yaml/" if h["form"] == "absolute" else "../../out_lib/yaml/"
+        heads = "".join(f'@extern "{prefix}{n}"\n' for n in c["yaml_names"])
+        steps += [
+            {"files": {"lib/exp.djinni": c["exp"]}, "cwd": "lib", "root": "exp.djinni", "targets": ["yaml"], "config": genrun.deep_merge(cfg, yopt), "out_dir": "out_lib",
+             "hook": "props.c13:hook_export", "node_attrs": node_attrs, **share},
+            {"files": {"app/main.djinni": heads + c["dep"]}, "subst": True, "cwd": "app", "root": "main.djinni", "targets": TARGETS, "config": cfg, "out_dir": "out_app", **share},
+            {"files": {"app/heads.djinni": heads}, "subst": True, "cwd": "app", "root": "heads.djinni", "targets": [], "config": cfg, "out_dir": "out_heads",
+             "hook": "props.c13:hook_loader", "yaml_paths": ["{JOB}/out_lib/yaml/" + n for n in c["yaml_names"]], **share},
+            {"files": {"loc/main.djinni": c["exp"] + c["dep"]}, "cwd": "loc", "root": "main.djinni", "targets": TARGETS, "config": cfg, "out_dir": "out_loc", **share},
+        ]
+    return {"steps": steps}
+
+
+def sequence_of_rounds(rounds: list[dict], mode: str, hist: dict) -> dict:
+    """a history given by the (exporter, dependant, config) of its rounds — replays and the re-run of one round alone"""
+    out = []
+    for k, x in enumerate(rounds):
+        out.append({"exp": x["exporter"], "dep": x["dependant"], "config": x["config"], "config_name": "replay", "mode": mode, "shape": "history",
+                    "yaml_names": x["yaml_names"], "history": {**hist, "round": k, "edit": x.get("edit", "?")}})
+    for k, c in enumerate(out):
+        c["history"]["rounds"] = rounds[:k + 1]
+    return {"rounds": out}
 
 
 # ---------------------------------------------------------------------------------------------------------
@@ -719,6 +939,8 @@ def hook_loader(job, ctx_obj, jobdir):
     """the loader alone (a root file that only pulls the YAML files in): what is registered does not depend on whether a
     dependant can be built"""
     src = Path(jobdir) / "src"
+    if job.get("yaml_paths"):
+        return {"loaded": loaded_tables([p.replace("{JOB}", str(jobdir)) for p in job["yaml_paths"]])}
     if job.get("workspace"):
         # the files the real parser located for the `@extern` directives, in the order of the directives
         import os
@@ -751,6 +973,7 @@ SITE_RE = re.compile("u(" + "|".join(sorted((x.lower() for x in EXPORTS), key=le
 
 
 SITES_SEEN: set = set()
+ALPHABET_SEEN: dict = {}
 
 
 def possible_sites() -> set:
@@ -790,7 +1013,7 @@ def shape_of(case, sites=()) -> str:
     return "other"
 
 
-def round_trips(ctx, cases, used, spec, minimise=True):
+def round_trips(ctx, cases, used, spec, minimise=True, sequences=(), alone=False):
     import yaml
     from pydjinni import API
     ext_model = API().external_type_model
@@ -799,6 +1022,14 @@ def round_trips(ctx, cases, used, spec, minimise=True):
     used_req = [[u["gen"], u["attr"], u["ctx"]] for u in used]
     breaks = []
     pending = []        # differing round trips: reported after the attempt to reproduce each shape with one declaration and one site
+    deferred = []       # failures of a later round of a re-export history: classified once the round has been run on its own
+
+    def rep(c, key, what, body):
+        if c.get("history") and c["history"]["round"] > 0:
+            deferred.append((c, key, what, body))
+        else:
+            c.setdefault("_reported", set()).add(key)
+            ctx.report(key, what, body)
     # round 1: all-local build, and the export (+ the decoy export of a workspace case)
     jobs = []
     for c in cases:
@@ -815,7 +1046,10 @@ def round_trips(ctx, cases, used, spec, minimise=True):
                      "hook": "props.c13:hook_export", "node_attrs": node_attrs})
         if lay:
             jobs.append({"files": {"exp.djinni": lay["decoy"]}, "root": "exp.djinni", "targets": ["yaml"], "config": genrun.deep_merge(lay["decoy_config"], yopt)})
-    res1 = genrun.run_many(ctx.tmp / "r1", jobs, timeout=90)
+    seq_at = len(jobs)
+    jobs += [sequence_job(q, node_attrs) for q in sequences]
+    # (a history run on its own gets a process of its own)
+    res1 = genrun.run_many(ctx.tmp / ("r1a" if alone else "r1"), jobs, timeout=90, fresh_process=alone)
     # round 2: the dependant with @extern
     jobs2, idx2 = [], []
     for k, c in enumerate(cases):
@@ -854,10 +1088,31 @@ def round_trips(ctx, cases, used, spec, minimise=True):
         idx2.append(k)
     res2 = genrun.run_many(ctx.tmp / "r2", jobs2, timeout=90)
     reqs, metas = [], []
-    for j, k in enumerate(idx2):
-        r2, rl = res2[2 * j], res2[2 * j + 1]
-        c = cases[k]
+    triples = [(cases[k], res2[2 * j], res2[2 * j + 1]) for j, k in enumerate(idx2)]
+    # the rounds of the histories: every round is a round trip of its own (export, dependant, loader, all-local build of that round)
+    for q, res in zip(sequences, res1[seq_at:]):
+        steps = res.get("steps") or [res] * (4 * len(q["rounds"]))
+        for k, c in enumerate(q["rounds"]):
+            exp, r2, rl, loc = steps[4 * k: 4 * k + 4]
+            c["local"], c["export"], c["ws"] = loc, exp, None
+            if not loc["ok"] or not exp["ok"]:
+                if exp["ok"] or exp.get("stage") in ("hang", "not-run"):
+                    ctx.stat("local_build_fails_" + loc["stage"])
+                    break
+                raise common.Infra(f"the exporter part of a closed-world program is not generated: {exp}\n{c['exp']}")
+            c["yamls"] = {p[5:]: t for p, t in exp["files"].items() if p.startswith("yaml/")}
+            if sorted(c["yamls"]) != sorted(c["yaml_names"]):
+                ctx.stat("history_export_names_not_as_predicted")       # (the dependant of the round names the files beforehand)
+                break
+            ctx.count(key=("history", c["history"]["edit"], c["mode"], c["history"]["form"], "one-api" if c["history"]["share_api"] else "api-per-step", c["config_name"]),
+                      nontrivial=c["history"]["round"] > 0, sample={"round": c["history"]["round"], "edit": c["history"]["edit"], "exporter": c["exp"][:200]})
+            ctx.stat("history_rounds")
+            ctx.stat("history_edit_" + c["history"]["edit"])
+            triples.append((c, r2, rl))
+    for c, r2, rl in triples:
         inp = {"exporter": c["exp"], "dependant": c["dep"], "config": c["config"], "mode": c["mode"]}
+        if c.get("history"):
+            inp["history"] = {k_: c["history"][k_] for k_ in ("round", "edit", "form", "share_api", "rounds")}
         if c.get("layout"):
             inp["layout"] = c["layout"]
         # 1. every exported document validates against the published model; per-type files hold one document each
@@ -869,8 +1124,16 @@ def round_trips(ctx, cases, used, spec, minimise=True):
                 try:
                     ext_model.model_validate(d)
                 except Exception as e:  # noqa
-                    ctx.report("yaml:invalid:" + str(d.get("primitive")), "an exported YAML document does not validate against the external type model",
-                               {"input": inp, "document": d, "error": str(e)[:400]})
+                    # the shape of the failure: the refused attribute (first error of the validator), otherwise the kind of the type
+                    where, value = str(d.get("primitive")), None
+                    try:
+                        first = e.errors()[0]
+                        where, value = ".".join(str(x) for x in first["loc"]), first.get("input")
+                    except Exception:  # noqa
+                        pass
+                    rep(c, "yaml:invalid:" + where, "an exported YAML document does not validate against the external type model"
+                        + (f": {where} = {value!r} is refused" if value is not None else ""),
+                        {"input": inp, "document": d, "attribute": where, "value": jval(value) if value is not None else None, "error": str(e)[:400]})
                 docs[".".join(list(d.get("namespace", [])) + [str(d["name"])])] = d
                 doc_list.append(d)
         decls = {}
@@ -885,20 +1148,27 @@ def round_trips(ctx, cases, used, spec, minimise=True):
             if c["mode"] == "per_type" and lost and set(docs) <= set(decls) and all(len(bare[k.split(".")[-1]]) > 1 for k in lost):
                 # Dom clause distinctNamesPerTypeFile: `<name>.yaml` has no namespace component (property C15, overwrite:yaml:namespace-dropped)
                 ctx.count(key=("roundtrip", "same-name-per-type-file"), sample=inp)
-                ctx.report("yaml:document-set:same-name-per-type-file", "equally named types of different namespaces are exported to one per-type file: the later export replaces the earlier one",
+                rep(c, "yaml:document-set:same-name-per-type-file", "equally named types of different namespaces are exported to one per-type file: the later export replaces the earlier one",
                            {"input": inp, "documents": sorted(docs), "declarations": sorted(decls), "lost": lost})
                 continue
-            ctx.report("yaml:document-set", "the yaml target did not write exactly one document per named declaration",
+            rep(c, "yaml:document-set", "the yaml target did not write exactly one document per named declaration",
                        {"input": inp, "documents": sorted(docs), "declarations": sorted(decls)})
         for key, d in decls.items():
             name = key.split(".")[-1]
             family = "yaml-word" if name.lower() in YAML_LOWER else "keywordish" if name in KEYWORDISH else "ordinary"
             ctx.count(key=("name", d["kind"], c["mode"], family, "namespaced" if "." in key else "global"), nontrivial=True, sample={"type": key})
             ctx.stat(f"name_{family}_{d['kind']}_{c['mode']}")
+        c["_docs"], c["_rl"] = {n: [d for d in yaml.safe_load_all(c["yamls"][n]) if d is not None] for n in sorted(c["yamls"])}, rl
+        # the alphabet of the exported strings, per attribute
+        for d in doc_list:
+            for g in gen_keys:
+                for k_, v_ in (d.get(g) or {}).items() if isinstance(d.get(g), dict) else ():
+                    if isinstance(v_, str):
+                        ALPHABET_SEEN.setdefault(f"{g}.{k_}", set()).update(ch if not ch.isalnum() else ("0" if ch.isdigit() else "A" if ch.isupper() else "a") for ch in v_)
         # 2. the loader on the exported files alone
         loaded, loader_ok = {}, rl["ok"]
         if not rl["ok"]:
-            ctx.report("load:fails:" + rl["stage"] + ":" + rl["cls"], "the exported YAML files cannot be pulled in with @extern",
+            rep(c, "load:fails:" + rl["stage"] + ":" + rl["cls"], "the exported YAML files cannot be pulled in with @extern",
                        {"input": inp, "impl": rl})
         else:
             loaded = rl["extra"]["loaded"]
@@ -917,7 +1187,7 @@ def round_trips(ctx, cases, used, spec, minimise=True):
                     reqs.append({"op": "c13.locate", "as_given": ws["slots"][n][0], "next_to_idl": ws["slots"][n][1], "include_dirs": ws["slots"][n][2:]})
                     metas.append(("locate", c, n, None, got))
                     if got != f"{ws['home']}/ext/{n}":
-                        ctx.report("extern:wrong-file:" + form, "an @extern directive of the dependent program did not load the exported file but another file of the same relative name",
+                        rep(c, "extern:wrong-file:" + form, "an @extern directive of the dependent program did not load the exported file but another file of the same relative name",
                                    {"input": inp, "directive": '@extern "' + ws["literal"](n) + '"', "exported_file": f"{ws['home']}/ext/{n}", "loaded_file": got,
                                     "working_directory": "work", "idl_file": "app/main.djinni", "include_dirs": ws["job"]["generate"]["include_dirs"],
                                     "candidates_in_search_order": ws["slots"][n]})
@@ -967,9 +1237,19 @@ def round_trips(ctx, cases, used, spec, minimise=True):
                 metas.append(("spec", c, key, d, loaded[key]))
             reqs.append({"op": "c13.roundtrip", "decl": decl_req, "spec": spec, "used": used_req, "primitive": d["primitive"]})
             metas.append(("model-roundtrip", c, key, d, None))
+    # the histories as wholes: the model of the rounds on one directory tree (Lean `runRounds`) vs what the real loader registered, round by round
+    for q in sequences:
+        done = [c for c in q["rounds"] if "_rl" in c]
+        if not done or any(not c["_rl"]["ok"] for c in done):
+            continue
+        reqs.append({"op": "c13.rounds", "spec": spec, "rounds": [
+            {"written": [[n, [doc_req(d, gen_keys) for d in ds]] for n, ds in c["_docs"].items()], "externs": c["yaml_names"]} for c in done]})
+        metas.append(("rounds", done[-1], None, None, [c["_rl"]["extra"]["loaded"] for c in done]))
     if pending:
         minis, seen = [], set()
         for c, sites, key, _, _ in pending:
+            if c.get("history"):
+                continue
             if minimise and sites and key not in seen:
                 seen.add(key)
                 mc = minimised(c, sites[0])
@@ -981,7 +1261,7 @@ def round_trips(ctx, cases, used, spec, minimise=True):
         if minis:
             breaks += round_trips(ctx, minis, used, spec, minimise=False)
         for c, sites, key, what, body in pending:
-            ctx.report(key, what, body)
+            rep(c, key, what, body)
     answers = []
     for a0 in range(0, len(reqs), 400):
         answers += ctx.driver.batch(reqs[a0:a0 + 400])
@@ -991,11 +1271,26 @@ def round_trips(ctx, cases, used, spec, minimise=True):
         inp = {"exporter": c["exp"], "dependant": c["dep"], "config": c["config"], "mode": c["mode"], "type": key}
         if c.get("layout"):
             inp["layout"] = c["layout"]
+        if c.get("history"):
+            inp["history"] = {k_: c["history"][k_] for k_ in ("round", "edit", "form", "share_api", "rounds")}
         if kind == "locate":
             ctx.count(n=1)
             if a.get("located") != other:
                 inp.pop("type")
                 breaks.append({"what": "c13.locate (search order on the written workspace) vs the file the parser read", "file": key, "model": a.get("located"), "impl": other, "input": inp})
+            continue
+        if kind == "rounds":
+            ctx.count(n=len(other))
+            inp.pop("type")
+            for k_, (m_, loaded_) in enumerate(zip(a["rounds"], other)):
+                mine = None if "registered" not in m_ else [[".".join(e["key"][0] + [e["key"][1]]), sorted(e["type"]["base"]),
+                                                            sorted([g, None if kv is None else sorted(kv)] for g, kv in e["type"]["gens"])] for e in m_["registered"]]
+                theirs = [[k2, sorted(t["base"]), sorted([g, None if kv is None else sorted(kv)] for g, kv in t["gens"] if g != "yaml")] for k2, t in loaded_.items()]
+                if mine != theirs:
+                    first = next((x for x in zip(mine or [], theirs) if x[0] != x[1]), None)
+                    breaks.append({"what": f"c13.rounds (runRounds: every round reads the files as they are now) vs the registry of Resolver.load_external in round {k_ + 1} of a history",
+                                   "model": first[0] if first else m_ if mine is None else [x[0] for x in mine], "impl": first[1] if first else [x[0] for x in theirs], "input": inp})
+                    break
             continue
         if kind == "loadfile":
             ctx.count(n=1)
@@ -1022,9 +1317,9 @@ def round_trips(ctx, cases, used, spec, minimise=True):
         elif kind == "spec":
             ctx.count(n=1)
             if not a["same_key"]:
-                ctx.report("key:" + d["kind"], "the loaded type registers under another qualified name", {"input": inp, "spec": a})
+                rep(c, "key:" + d["kind"], "the loaded type registers under another qualified name", {"input": inp, "spec": a})
             for df in a["differing"]:
-                ctx.report(f"attr:{df['gen']}.{df['attr']}".replace("<header>", "derived_header"),
+                rep(c, f"attr:{df['gen']}.{df['attr']}".replace("<header>", "derived_header"),
                            "an attribute that dependants read through the type definition differs between the local declaration and the loaded external type",
                            {"input": inp, "attribute": df, "kind": d["kind"]})
         else:
@@ -1032,6 +1327,31 @@ def round_trips(ctx, cases, used, spec, minimise=True):
                 # the model's own round trip differs: either a Dom clause (then the implementation's observation above
                 # reported it) or a modelling problem
                 c.setdefault("model_diffs", []).append((key, a))
+    if deferred:
+        # Which of these failures does the round show on its own — the same files, configuration and export mode in a fresh process on
+        # a fresh tree? Those are reported (by that run) under their own key; the others exist only because of what the process did and
+        # the paths held before: `history:stale-export:<what changed>`.
+        by_round = {}
+        for c, key, what, body in deferred:
+            by_round.setdefault((c["history"]["seq"], c["history"]["round"]), (c, []))[1].append((key, what, body))
+        singles = []
+        for (sq, k), (c, _) in by_round.items():
+            h = c["history"]
+            singles.append(sequence_of_rounds([h["rounds"][-1]], c["mode"], {"seq": sq, "form": h["form"], "share_api": h["share_api"]}))
+        breaks += round_trips(ctx, [], used, spec, minimise=False, sequences=singles, alone=True)
+        for ((sq, k), (c, items)), single in zip(by_round.items(), singles):
+            own = single["rounds"][0].get("_reported", set())
+            mine = [(key, what, body) for key, what, body in items if key not in own]
+            ctx.stat("history_rounds_failing")
+            if not mine:
+                continue
+            h = c["history"]
+            key, what, body = mine[0]
+            c.setdefault("_reported", set()).add("history:stale-export:" + h["edit"])
+            ctx.report("history:stale-export:" + h["edit"],
+                       f"round {k + 1} of a re-export history (same process, same paths; changed since the round before: {h['edit']}) fails, the same round on its own does not: {what}",
+                       {"input": body.get("input"), "failures_of_the_round": sorted({x[0] for x in mine}), "also_alone": sorted(own),
+                        "first": {k_: v for k_, v in body.items() if k_ != "input"}})
     return breaks
 
 
@@ -1046,7 +1366,8 @@ def load_corpus():
 
 
 def run(ctx):
-    ctx.coverage["rule"] = ("round trips: distinct = (shape, export mode, configuration, naming family, exported slots); workspaces: distinct = (where the export stands, "
+    ctx.coverage["rule"] = ("round trips: distinct = (shape, export mode, configuration, naming family, exported slots); histories: distinct = (what changed since the round before, export mode, "
+                            "spelling of the @extern literals, one API object / one per step, configuration); workspaces: distinct = (where the export stands, "
                             "export mode, directory decoy, spelling of the include directories); usage sites: distinct = (exported kind, wrapper, "
                             "position); names: distinct = (declaration kind, export mode, name family, namespaced); function level: one evaluation per exported declaration "
                             "and op (export, load, spec) and one per program for the whole-file load")
@@ -1068,16 +1389,34 @@ def run(ctx):
         "at one search candidate (" + ", ".join(FORMS) + " in rotation, x export mode), every candidate behind it holds a decoy export of the same relative name (same qualified "
         "names, every declaration of another kind, another of the four configurations), the last candidate in front of it is absent or a directory of that name; no symbolic links; "
         "the root IDL file is spelled relative to the working directory",
+        "alphabet stream: configurations " + ", ".join(n for n, _ in ALPHABETS) + " x names " + ", ".join(LEXICAL) + " x namespaces " + ", ".join(LEX_NAMESPACES) +
+        " (60 % of the declarations namespaced), 2-3 exported slots per case, both export modes; java.identifier.type and jni.identifier.class_name are configured alike "
+        "(they name the same Java class); `$` cannot reach an exported string (no identifier, package or prefix may contain it)",
+        "re-export histories: two exported slots, light dependants (a record, a +cpp and a +java+objc+cppcli interface over every wrapper), configurations from the four + the three "
+        "alphabet configurations, names of the slot / lexical families, 2 rounds (3 in every fourth history); edits " + ", ".join(EDITS) + " in rotation; every round cleans the "
+        "output directories it writes (`clean=True`), the dependent program names the exported files by the names the yaml target is known to give them (<name>.yaml / all.yaml); "
+        "the steps of a history run in one forked worker process, the re-run of a round alone in a process of its own",
     ]
     api, gens = api_and_gens()
     used, spec, computed, ok = obligations(ctx, gens)
-    cases = []
-    for c in load_corpus():
+    cases, sequences = [], []
+    for n, c in enumerate(load_corpus()):
+        if "rounds" in c:       # a re-export history
+            sequences.append(sequence_of_rounds(c["rounds"], c["mode"], {"seq": 1000 + n, "form": c.get("form", "absolute"), "share_api": bool(c.get("share_api"))}))
+            for x in sequences[-1]["rounds"]:
+                x["config_name"] = "corpus"
+            continue
         cases.append({**c, "config": c.get("config", {}), "config_name": c.get("config_name", "default"), "mode": c.get("mode", "per_type"), "shape": c.get("shape", "corpus")})
     for i in range(ctx.n(32, 448)):
         r = random.Random(f"{ctx.seed}/c13/{i}")
         cases.append(gen_case(r, i))
-    breaks = round_trips(ctx, cases, used, spec)
+    for i in range(ctx.n(6, 126)):
+        r = random.Random(f"{ctx.seed}/c13/alphabet/{i}")
+        cases.append(gen_alphabet_case(r, i))
+    sequences += [gen_sequence(random.Random(f"{ctx.seed}/c13/history/{i}"), i) for i in range(ctx.n(12, 96))]
+    breaks = round_trips(ctx, cases, used, spec, sequences=sequences)
+    breaks += pattern_correspondence(ctx, spec)
+    ctx.stats["exported_alphabet"] = {k: "".join(sorted(v)) for k, v in sorted(ALPHABET_SEEN.items())}      # a / A / 0 = lower / upper / digit
     # an obligation that fails without a listed Dom clause: name the attribute and try to exercise it
     if not ok:
         for u in used:
@@ -1116,7 +1455,11 @@ def replay(ctx, body):
             "mode": inp.get("mode", "per_type"), "shape": "replay"}
     if inp.get("layout"):
         case["layout"] = inp["layout"]
-    round_trips(ctx, [case], used, spec)
+    if inp.get("history"):
+        h = inp["history"]
+        round_trips(ctx, [], used, spec, sequences=[sequence_of_rounds(h["rounds"], case["mode"], {"seq": 0, "form": h.get("form", "absolute"), "share_api": bool(h.get("share_api"))})])
+    else:
+        round_trips(ctx, [case], used, spec)
     if key:     # the recorded failure: does a failure of the same shape occur again?
         return not any(v["key"] == key for v in ctx.violations[n0:]) and ctx.known_hits.get(key, 0) == kk0
     return len(ctx.violations) == n0 and sum(ctx.known_hits.values()) == k0
